@@ -329,6 +329,90 @@ fn forced_gc_case(case: u64, rng: &mut Rng, rep: &mut Report) {
     }
 }
 
+
+/// Forced schedule: a reader (second Index on the same directory) is parked in the middle of
+/// loading (before the meta lock, before meta.json, or before its k-th segment-file open) while
+/// the writer commits, merges and collects garbage: no file the reader still needs may vanish.
+fn forced_reader_case(case: u64, rng: &mut Rng, rep: &mut Report) {
+    use std::sync::{Arc, Mutex};
+    let cfg = ExecCfg { threads: 1, merge_policy: false, sort: None, budget_per_thread: 15_000_000 };
+    let mon = MonDir::new(MonCfg { monitors: true, ..Default::default() });
+    mon.set_lock_timeout(Duration::from_millis(150));
+    let mut ex = match Exec::create(Box::new(mon.clone()), cfg, Some(mon.clone())) {
+        Ok(e) => e,
+        Err(e) => {
+            rep.violation("api-error:create", json!(e));
+            return;
+        }
+    };
+    rep.eval();
+    let mut g = HistGen::new();
+    let nseg = rng.urange(2, 4);
+    for _ in 0..nseg {
+        for _ in 0..rng.urange(1, 5) {
+            ex.step(&Op::Add(g.doc(rng, 3)));
+        }
+        ex.step(&Op::Commit);
+    }
+    let gate_kind = rng.below(6);
+    let nth = rng.below((nseg * 7) as u64);
+    let gate = match gate_kind {
+        4 => mon.add_gate(OpPred::kind(OpKind::LockAcquire).role("reader").path(".tantivy-meta.lock"), 0),
+        5 => mon.add_gate(OpPred::kind(OpKind::AtomicRead).role("reader").path("meta.json"), 0),
+        _ => mon.add_gate(OpPred::kind(OpKind::OpenRead).role("reader"), nth),
+    };
+    let mon2 = mon.clone();
+    let result: Arc<Mutex<Option<Result<usize, String>>>> = Arc::new(Mutex::new(None));
+    let res2 = result.clone();
+    let h = std::thread::Builder::new()
+        .name("tvmon-reader-forced".into())
+        .spawn(move || {
+            let r: Result<usize, String> = (|| {
+                let idx = Index::open(mon2).map_err(|e| format!("open: {e}"))?;
+                let reader = idx.reader().map_err(|e| format!("reader: {e}"))?;
+                live_ids(&reader.searcher()).map(|s| s.len())
+            })();
+            *res2.lock().unwrap() = Some(r);
+        })
+        .expect("spawn");
+    let parked = mon.wait_parked(gate, Duration::from_secs(5));
+    if parked {
+        ex.step(&Op::DeleteTerm(Pred::Grp(rng.below(3))));
+        ex.step(&Op::Add(g.doc(rng, 3)));
+        ex.step(&Op::Commit);
+        ex.step(&Op::Merge { pick: rng.next_u64(), n: 4, wait: true });
+        let _ = ex.writer.as_ref().unwrap().garbage_collect_files().wait();
+    }
+    mon.release_gate(gate);
+    let _ = h.join();
+    mon.release_all_gates();
+    rep.count(if parked { "forced_reader_parked" } else { "forced_reader_gate_not_reached" }, 1);
+    match result.lock().unwrap().take() {
+        None => rep.harness_error("forced reader produced no result"),
+        Some(Err(e)) => rep.violation(
+            "forced-reader:load-failed-while-gc-ran",
+            json!({"case": case, "gate_kind": gate_kind, "parked_at": mon.gate_parked_at(gate).map(|p| p.2), "err": e}),
+        ),
+        Some(Ok(_)) => {}
+    }
+    for r in mon.read_after_gc_events() {
+        if r.starts_with("reader:") {
+            rep.violation(format!("forced-reader:read-after-gc:{r}"), json!({"case": case}));
+        }
+    }
+    for v in mon.take_violations() {
+        if v.sig.starts_with("T3") {
+            rep.violation(format!("forced-reader:{}", v.sig), json!({"case": case, "detail": v.detail}));
+        }
+    }
+    if parked {
+        rep.nontrivial(format!(
+            "forced-reader:{}",
+            match gate_kind { 4 => "before-meta-lock".to_string(), 5 => "before-meta.json".to_string(), _ => format!("open#{}", nth.min(20)) }
+        ));
+    }
+}
+
 /// Crash clause: recovered crash image + one commit + one GC leaves exactly the committed files.
 fn crash_case(case: u64, rng: &mut Rng, rep: &mut Report) {
     let cfg = ExecCfg {
@@ -426,6 +510,7 @@ fn main() {
     let ctx = Ctx::from_env("C10", "exploration");
     let mut rep = run_cases(&ctx, "hist", ctx.scale(150, 6000) as u64, history_case);
     rep.merge(run_cases(&ctx, "forced", ctx.scale(120, 6000) as u64, forced_gc_case));
+    rep.merge(run_cases(&ctx, "forced-reader", ctx.scale(60, 3000) as u64, forced_reader_case));
     rep.merge(run_cases(&ctx, "crash", ctx.scale(12, 400) as u64, crash_case));
     simple_finish(
         &ctx,
